@@ -22,6 +22,8 @@ Lit(v)    == [t |-> "lit", v |-> v, name |-> "", kids |-> <<>>]
 Var(x)    == [t |-> "var", v |-> NoVal, name |-> x, kids |-> <<>>]
 Add(a, b) == [t |-> "add", v |-> NoVal, name |-> "", kids |-> <<a, b>>]
 Sub(a, b) == [t |-> "sub", v |-> NoVal, name |-> "", kids |-> <<a, b>>]
+\* a monetary literal whose asset position is an expression: [<e> n]
+MonLit(e, n) == [t |-> "monlit", v |-> VNum(n), name |-> "", kids |-> <<e>>]
 NoExpr    == [t |-> "none", v |-> NoVal, name |-> "", kids |-> <<>>]
 
 \* variable declarations: origin "plain" (value supplied with the request: sup = the value, or
@@ -45,6 +47,7 @@ RECURSIVE TypeOf(_, _)
 TypeOf(e, env) ==
     CASE e.t = "lit" -> e.v.ty
       [] e.t = "var" -> IF e.name \in DOMAIN env THEN env[e.name] ELSE "error"
+      [] e.t = "monlit" -> IF TypeOf(e.kids[1], env) = "asset" THEN "monetary" ELSE "error"
       [] e.t \in {"add", "sub"} ->
             LET l == TypeOf(e.kids[1], env) r == TypeOf(e.kids[2], env) IN
             IF l = "number" /\ r = "number" THEN "number"
@@ -84,6 +87,7 @@ RECURSIVE Eval(_, _)
 Eval(e, bind) ==
     CASE e.t = "lit" -> e.v
       [] e.t = "var" -> bind[e.name]
+      [] e.t = "monlit" -> LET a == Eval(e.kids[1], bind) IN IF a.ty = "error" THEN a ELSE Val("monetary", a.s, e.v.n)
       [] OTHER ->
             LET l == Eval(e.kids[1], bind) r == Eval(e.kids[2], bind) IN
             IF l.ty = "error" THEN l ELSE IF r.ty = "error" THEN r
